@@ -184,7 +184,7 @@ def gen_line(rng, cfg, tag, kinds=None, ip_pool=None, mac_pool=None, host_pool=N
 
 def render(ls):
     d = ls["d"]
-    return ls["tag"] + d + d.join(s[2] for s in ls["slots"]) + d
+    return ls["tag"] + d + d.join(s[2] for s in ls["slots"]) + ("" if ls.get("no_tail") else d)
 
 
 TAG_RE = re.compile(r"^~~\d+(?:~\d+)*~~")
